@@ -98,17 +98,22 @@ class Constant(ModelNode):
                 return None
 
     def dependencies(self):
-        def sub_(x, y):
-            return x.replace(y, " ")
-
-        for symbol in six.reduce(sub_, "()+-", self.value).split():
-            if not symbol.isdigit():
-                yield symbol
+        return _expression_symbols(self.value)
 
 
 class EnumMember(Constant):
     _str_pattern = "{s.name} = {s.value!r};"
     __slots__ = ()
+
+
+def _expression_symbols(expression):
+    """ Names used in a constant expression (a constant's or enumerator's value, an array size, a discriminator). """
+    def sub_(x, y):
+        return x.replace(y, " ")
+
+    for symbol in six.reduce(sub_, "()+-*/<>|", str(expression)).split():
+        if not symbol[0].isdigit():
+            yield symbol
 
 
 class _Serializable(ModelNode):
@@ -189,6 +194,12 @@ class StructMember(Typedef):
         """amount of bytes to add before next field. If field dynamic: negative alignment of next field"""
         self.padding = None
 
+    def dependencies(self):
+        yield self.type_name
+        if self.size:
+            for symbol in _expression_symbols(self.size):
+                yield symbol
+
     @property
     def is_array(self):
         return self.bound or self.size or self.greedy
@@ -231,6 +242,11 @@ class UnionMember(Typedef):
     def __init__(self, name, type_name, discriminator, definition=None, docstring=None):
         super(UnionMember, self).__init__(name, type_name, definition, docstring)
         self.discriminator = discriminator
+
+    def dependencies(self):
+        yield self.type_name
+        for symbol in _expression_symbols(self.discriminator):
+            yield symbol
 
 
 """ Composite kinds """
@@ -317,7 +333,8 @@ class Enum(_Container):
 
     def dependencies(self):
         for member in self.members:
-            yield member.name
+            for dependency in member.dependencies():
+                yield dependency
 
 
 class _SerializableContainer(_Container, _Serializable):
@@ -390,9 +407,15 @@ def topological_sort(nodes):
             if n.name == dependency:
                 return i
 
+    def node_dependencies(node):
+        for dep in node.dependencies():
+            provider = enumerator_owners.get(dep, dep)
+            if provider != node.name or dep not in enumerator_owners:
+                yield provider
+
     def model_sort_rotate():
         node = nodes[index]
-        for dep in node.dependencies():
+        for dep in node_dependencies(node):
             if dep not in known and dep in available:
                 found_index = find_first_dep(dep, index + 1)
                 if found_index:
@@ -402,6 +425,7 @@ def topological_sort(nodes):
 
     known = set(x + y for x in "uir" for y in ["8", "16", "32", "64"])
     available = set(node.name for node in nodes)
+    enumerator_owners = {member.name: node.name for node in nodes if isinstance(node, Enum) for member in node.members}
     for index in range(len(nodes)):
         visited = {id(nodes[index])}
         while model_sort_rotate():
